@@ -10,17 +10,35 @@ PROP = {'level': 'proof',
           'for take/skip/zip before a reversal (kernel-checked witnesses) = known finding F7. The model is '
           'tied to the real macros by generated programs: all type-correct chains up to depth 2 '
           'plus a seeded sample of deeper ones, each with for_each!, eval! consumers and collect_const!, '
-          'over all inputs over {0..3} up to length 4.',
+          'over all inputs over {0..3} up to length 4. CLOSURE CALLS (which closure is evaluated on which '
+          'argument, how often, in which order) are an output of the model too (konstEvalL, the loop nest with its '
+          'call log and the take guards at every loop top; calls_erase: same values): on the forward fragment '
+          'value and calls are exactly those of the std chain (konst_forward_calls, konst_forward_calls_eq_std), '
+          'also with closures that panic on a given call (hostile_forward_eq_std). Two defects found this way '
+          'were repaired (F21: a closure-taking method before a take ran on one more item, 9827f8a; F22: '
+          'take(0) after flat_map, 7ecb606); their shapes are a pinned regression corpus that runs first. Tied to the '
+          'real macros by logging closures (identical text in the macro and in the std chain) on all chains '
+          'of depth <= 2 and a sample of deeper ones, plus the same programs with one call poisoned.',
  'sources': [('programs', 'c10')],
  'exhaustive': False,
  'rule': 'Programs: every type-correct chain of depth <= 2 over 40 adapter instances '
          '+ seeded sample of depth 3-5 (400 quick / 2500 thorough); consumers: for_each on every chain, all 14 eval! consumers on chains '
          'of depth <= 1 and 3 sampled ones on deeper chains, collect_const! on 4 constant inputs; inputs: '
-         'all arrays over {0,1,2,3} up to length 4 for depth <= 1, 41 inputs for deeper chains.',
+         'all arrays over {0,1,2,3} up to length 4 for depth <= 1, 41 inputs for deeper chains. '
+         'Closure calls: all chains of depth <= 2 + 160 (quick) / 1000 (thorough) deeper ones, for_each + all 14 '
+         'consumers (depth <= 1) or 2 sampled ones; per run up to 3 poisoned-call variants; first of all the 15 '
+         'regression chains of F21/F22 with their pinned poisoned calls.',
  'explanation': 'impl = value computed by the real konst macros; oracle = identical std chain compiled in '
                 'the same program (scope m where std has no such chain or a documented exception applies); '
-                'model = Lean konstEval run by the driver; spec = Lean stdEval/docResult.',
- 'assumptions': ['closures are pure and total; sources are finite (order/number of closure evaluations and '
-                 'infinite/overflowing sources are not modelled)',
+                'model = Lean konstEval run by the driver; spec = Lean stdEval/docResult. calls/hostile '
+                'requests: value|[method position:argument;..] of the logging closures, resp. panic|[calls so '
+                'far]; model = konstEvalL, spec = stdEvalE/consumeCalls (chains without a reversing method).',
+ 'assumptions': ['closures are pure functions of their argument apart from being observed (call log) or panicking '
+                 'on a given call; sources are finite (infinite/overflowing sources are not modelled)',
+                 'the std oracle of the closure calls is the generic, documented adapter code: the source of the '
+                 'std chain is a forwarding wrapper of the slice iterator that does not opt into std\'s internal '
+                 'TrustedRandomAccess shortcut, which elides closure calls irregularly (an exhausted zip: '
+                 'documented as advancing its first iterator "at most one time"; map(f).skip(1).take(2).fold on '
+                 'a one-element source)',
                  'per-source-item output list then consumer prefix consumption models the nested loop with '
                  'the consumer innermost (equivalent for pure closures; validated by the correspondence)']}
